@@ -101,11 +101,21 @@ def explore(ctx):
     names = sorted(cw.COMMANDS)
     bycmd = {c: 0 for c in names}
     ctx.cov["index_changing_invocations_by_command"] = bycmd
-    for i in range(n):
-        cmdname = names[i % len(names)] if i < 3 * len(names) else (rng.choice(sorted(CCU)) if rng.random() < 0.6 else rng.choice(names))
-        spec = cw.gen_spec(rng)
-        args, extra = cw.gen_invocation(rng, cmdname, spec, base)
-        answer = rng.choice(["y\n", "n\n", "n\n", "y\n", None])
+    # bulk updates: more rows than fit in one modest batch (the whole update must still be one commit unit)
+    big = {"groups": ["G1", "G2"], "nodes": [{"name": "N1", "group": "G1", "stype": "A", "host": "h1", "active": True}, {"name": "N2", "group": "G2", "stype": "A", "host": "h1", "active": True}],
+           "acqs": ["acq1"], "files": [{"acq": "acq1", "name": f"f{j:03d}", "size": 10, "reg_days_ago": 1} for j in range(230)],
+           "copies": [{"file": j, "node": "N1", "has": "Y", "wants": "Y"} for j in range(230)], "reqs": [], "rules": [], "ireqs": []}
+    fixed = [("group sync", big, ["G2", "N1", "--force"]), ("node sync", big, ["N1", "G2", "--force"]), ("node clean", big, ["N1", "--force", "--archive-ok"]),
+             ("node verify", big, ["N1", "--force", "--all"])]
+    for i in range(n + len(fixed)):
+        if i < len(fixed):
+            cmdname, spec, args = fixed[i]
+            extra, answer = {}, None
+        else:
+            cmdname = names[i % len(names)] if i < 3 * len(names) else (rng.choice(sorted(CCU)) if rng.random() < 0.6 else rng.choice(names))
+            spec = cw.gen_spec(rng)
+            args, extra = cw.gen_invocation(rng, cmdname, spec, base)
+            answer = rng.choice(["y\n", "n\n", "n\n", "y\n", None])
         stdin_list = extra.get("file_list") == "-"
         inp = answer
         if stdin_list:
